@@ -61,6 +61,12 @@ func (in *verifInput) Commit(e *Event) {
 			vf.Assert(w.acked[o] || w.dropped[o] || w.committed[o] > 0, "nothing-earlier-in-the-stream-is-unfinished")
 		}
 	}
+	if VerifRealCommit != nil && vf.Param("real-commit", 0) == 1 {
+		VerifRealCommit(e)
+		if VerifRealCommitted != nil {
+			VerifRealCommitted(off, st)
+		}
+	}
 	// C02: once per event, in read order per stream
 	w.committed[off]++
 	if w.commitAt != nil {
@@ -207,6 +213,10 @@ var (
 	VerifRealTimeouts int
 	// VerifRealIdle, when set, runs after the scenario went idle (end-state oracles of the plugin's harness)
 	VerifRealIdle func()
+	// VerifRealCommit, when set, is the real input plugin's Commit: it receives every commit notification
+	VerifRealCommit func(e *Event)
+	// VerifRealCommitted, when set, is told offset and stream of every commit notification (ghost state of the plugin's harness)
+	VerifRealCommitted func(off int64, stream string)
 )
 
 // observes what the real action decides (a collapsed or discarded event is not committed)
@@ -400,7 +410,7 @@ func VerifH_C01_pipeline() {
 		vf.Assert(w.committed[o] == 1 || (w.dropped[o] && w.committed[o] == 0), "every-event-committed-once-or-dropped")
 	}
 	vf.Assert(p.eventPool.inUse() == 0, "in-use-returns-to-zero")
-	if VerifRealIdle != nil && vf.Param("real", 0) == 1 {
+	if VerifRealIdle != nil && (vf.Param("real", 0) == 1 || vf.Param("real-commit", 0) == 1) {
 		VerifRealIdle()
 	}
 	vf.Reach("idle")
